@@ -178,3 +178,24 @@ func VerifNextDSTOffTheHour() {
 	// 2012-09-29 11:15 UTC = 2012-09-30 00:00 CHAST (+12:45); the change is at 14:00 UTC
 	vNextAroundTransition("Pacific/Chatham", time.Date(2012, 9, 29, 11, 15, 30, 0, time.UTC), "next_dst_off_the_hour_done")
 }
+
+// More kinds of transition, same shape (quarter-hour start instants over four hours, symbolic minute and hour sets):
+// Antarctica/Troll, whose DST shift is TWO hours (2016-03-27 01:00 +00 -> 03:00 +02; 2016-10-30 03:00 +02 -> 01:00 +00,
+// two hours repeated); Atlantic/Azores 2016-10-30 01:00 +00 -> 00:00 -01 (the hour after midnight repeated);
+// Europe/London 2016-03-27 01:00 -> 02:00; Asia/Amman 2016-10-28 01:00 +03 -> 00:00 +02.
+//
+//verif:harness prop=C04 name=next_dst_more_zones unwind=400 solver=z3-new nonterm=violation replay_timeout=20
+func VerifNextDSTMoreZones() {
+	switch zzverif.Choose("zone_and_date", 5) {
+	case 0:
+		vNextAroundTransition("Antarctica/Troll", time.Date(2016, 3, 27, 0, 0, 30, 0, time.UTC), "next_dst_more_zones_done") // change at 01:00 UTC
+	case 1:
+		vNextAroundTransition("Antarctica/Troll", time.Date(2016, 10, 29, 23, 0, 30, 0, time.UTC), "next_dst_more_zones_done") // 01:00 +02 on 10-30; change at 01:00 UTC
+	case 2:
+		vNextAroundTransition("Atlantic/Azores", time.Date(2016, 10, 29, 23, 0, 30, 0, time.UTC), "next_dst_more_zones_done") // 23:00 +00 on 10-29; change at 01:00 UTC
+	case 3:
+		vNextAroundTransition("Europe/London", time.Date(2016, 3, 27, 0, 0, 30, 0, time.UTC), "next_dst_more_zones_done") // change at 01:00 UTC
+	case 4:
+		vNextAroundTransition("Asia/Amman", time.Date(2016, 10, 27, 20, 0, 30, 0, time.UTC), "next_dst_more_zones_done") // 23:00 +03 on 10-27; change at 22:00 UTC
+	}
+}
